@@ -35,6 +35,7 @@ MUTANTS = [
     {"id": "c08-add-empty-returns-self", "expect": "fire", "edits": [(C, "        result = type(self)(self)  # clone self\n        result += other\n        return result", "        if isinstance(other, (str, CHText)) and len(other) == 0:\n            return self\n        result = type(self)(self)  # clone self\n        result += other\n        return result")]},
     {"id": "c08-fixed-len-returns-self", "expect": "fire", "edits": [(C, "        return type(self)(self)  # a copy: the result must not alias self", "        return self")]},
     # neutral
+    {"id": "c08-line-buffer-cleared-in-place", "expect": "fire", "edits": [(P, "                yield CHText.make(line_chunks)\n                line_chunks = []", "                yield CHText.make(line_chunks)\n                line_chunks.clear()")]},
     {"id": "c08-n-tuple-copy", "expect": "silent", "edits": [(C, "            for part in list(other.chunks):", "            for part in tuple(other.chunks):")]},
     {"id": "c08-n-guarded-alias", "expect": "silent", "edits": [(C, "            for part in list(other.chunks):\n                self._append_chunk(part)", "            parts = other.chunks[:]\n            for part in parts:\n                self._append_chunk(part)")]},
     {"id": "c08-n-calc-len", "expect": "silent", "edits": [(C, "        result.scrlen = sum(len(c.text) for c in chunks_list)", "        result.scrlen = cls.calc_chunks_len(chunks_list)")]},
